@@ -193,7 +193,16 @@ class ExecutorSchedules(Contract):
 
     def run(self, h, inst):
         from pytato.distributed.execute import execute_distributed_partition
-        S = setup(inst["prog"], inst["size"], "chain")
+        try:
+            S = setup(inst["prog"], inst["size"], "chain")
+        except EngineSignal:
+            raise
+        except Exception as e:  # noqa: BLE001
+            # no partition to execute: the partitioner itself failed on a
+            # valid program (its own contracts: C09/C10)
+            h.fail("exec.a-valid-program-has-a-partition",
+                   f"{type(e).__name__}: {e}"[:200])
+            return
         import mpi4py.MPI as MPI  # the fake module (installed by setup)
         me = inst["rank"]
         partition = S["num"][me]
